@@ -25,7 +25,9 @@ add('C18', 'fault_enumeration',
     'Catalogue of ~80 constructed violation kinds x 9 stream states x both roles is enumerated completely on every run '
     '(class known by construction, expected RFC code set per class); plus random hostile traffic delivered frame by frame '
     'where every raise must yield exactly one GOAWAY, last in the output, code == exception code, last-stream-id == highest '
-    'peer-opened id. Held/violated on those executions only.',
+    'peer-opened id. For window violations (DATA overrunning a stream or the connection window, padded or not; window and '
+    'INITIAL_WINDOW_SIZE overflows, also of promised streams) and for frames on ids that are idle only for their own side, silence '
+    'is a violation too. Held/violated on those executions only.',
     'Expected-code table written from RFC 7540 sections 4-6; last-stream-id oracle accepts the offending stream-opening frame id, '
     'and, once the endpoint has refused a promised stream with RST_STREAM(REFUSED_STREAM), either the refused id or the event watermark.')
 
@@ -121,7 +123,9 @@ add('C21', 'exploration',
 add('C28', 'exploration',
     'runtime monitoring: replay of recorded call programs in separate interpreters under different PYTHONHASHSEED values with transcript digests and tripwires',
     'Recorded programs (incl. repeated header fields with differing values, many-key settings frames, API error paths) are '
-    'replayed twice in-process and in fresh interpreters under 5 (8 in thorough) hash seeds; per-step digests of output bytes, '
+    'replayed twice in-process and in fresh interpreters under 5 (8 in thorough) hash seeds, every other replay with the programs in '
+    'reverse order (no connection may depend on the connections served before it); some programs lower the documented '
+    'MAX_CLOSED_STREAMS knob and cross the cap of the closed-stream memory; per-step digests of output bytes, '
     'canonical events and exception type+code must be identical; clock/random/socket entry points raise while a call runs.',
     'Exception message text is not compared.')
 
@@ -256,7 +260,9 @@ add('C06', 'exploration',
     'WINDOW_UPDATE, PUSH_PROMISE, naked CONTINUATION, on the focus stream and (reduced set) on the promised stream. The reference machine is '
     'written from the RFC text (no use of the library transition table) and returns the allowed reactions: local ok/refused; received accept '
     'with an exact event list, stream error with a code set, connection error with a code set (exactly one GOAWAY with the exception code), or '
-    'ignore. A connection error or refused local action ends a branch. Plus random walks up to length 14. Held/violated on those sequences only; '
+    'ignore. A connection error or refused local action ends a branch. Plus random walks up to length 14, most of them with padded DATA, '
+    'WINDOW_UPDATE up to exactly 2^31-1, INITIAL_WINDOW_SIZE toggled between 65535 and 0 (the model follows every send window), full-size '
+    'DATA on dead streams and header blocks split over CONTINUATION frames. Held/violated on those sequences only; '
     'exhaustive only with respect to this alphabet and depth.',
     'Widened cells, each with its source in the module: DATA on closed streams answered by RST_STREAM (CHANGELOG 3.2.0); WINDOW_UPDATE/RST_STREAM on closed '
     'streams ignored (CHANGELOG 3.1.1); 1xx with END_STREAM or after END_STREAM may be PROTOCOL_ERROR; server DATA before response headers is '
@@ -266,7 +272,8 @@ add('C01', 'exploration',
     'runtime monitoring: call-level message oracle over duet histories - every successful sending call becomes a logical message with its end offset in the byte pipe, and the receiver events of each receive_data call must equal the predictions for the messages that arrived in it',
     'A real client and a real server joined by byte pipes run random programs of 20-160 steps: requests (with priority), informational and '
     'final responses, DATA with and without padding up to the window / frame limits, trailers, END_STREAM, resets, pushes and pushed responses, '
-    'pings, PRIORITY, SETTINGS changes of five settings racing traffic (up to three frames in flight per endpoint), manual increments and '
+    'pings, PRIORITY, SETTINGS changes of five settings racing traffic (up to three frames in flight per endpoint), messages that announce '
+    'their body length, manual increments and '
     'acknowledge_received_data, about 7 percent deliberately failing calls, GOAWAY; between steps random-length prefixes (1 byte, mid-frame, '
     'everything) of either pipe are delivered. At arrival the receiver view of the stream (an RFC 5.1 model fed by that endpoint calls and '
     'arrivals) decides the expected events - header lists in the documented normal form, exact body bytes and flow-controlled length, '
